@@ -54,6 +54,18 @@ def main():
             ctx.notes.append("thorough tier: %d additional rounds of the randomised parts under seeds seed + 1000003*r (time budget %ds)" % (rounds, budget))
     except MachineryError as e:
         print("MACHINERY-FAILURE property=%s: %s" % (prop, e))
+        if "toy" in str(e) and not a.only:
+            # the toy-group binding does not apply to this tree (e.g. a module-level cache keyed by coordinates survives the
+            # re-parameterisation): the bindings on the real curve still decide the property; without a violation from them the
+            # run stays a machinery failure
+            try:
+                ctx.skip = {"toy", "tables", "mc"}
+                mod.run(ctx)
+            except Exception:
+                traceback.print_exc()
+            if ctx.violations:
+                ctx.notes.append("toy-group binding inapplicable on this tree: %s" % e)
+                return ctx.finish()
         ctx.finish(machinery_failed=True)
         return 2
     except Exception as e:
